@@ -109,6 +109,15 @@ FIXTURES = {
                                  ("X4", "C", 6)])],
         [(0, 2, None, None), (0, 3, None, None), (0, 4, None, None), (1, 2, None, None), (1, 3, None, None),
          (1, 4, None, None), (0, 1, None, None), (0, 5, None, None), (1, 5, None, None)]),
+    # ions: two chains whose boundary residues agree in name AND number (NA 1 | NA 1: a carrier that detects residue
+    # boundaries by "name or number changed" must also look at the chain), and, inside one chain, two consecutive residues
+    # with the SAME number but different names, all carrying a segment id
+    "ionchains": _mk(
+        [(0, "A", "NA", 1, "IONS", [("NA", "Na", 1)]),
+         (1, "B", "NA", 1, "IONS", [("NA", "Na", 2)]),
+         (2, "C", "IOA", 7, "IONS", [("X1", "C", 3)]),
+         (2, "C", "IOB", 7, "IONS", [("X2", "O", 4), ("X3", "O", 5)])],
+        [(3, 4, None, None)]),
 }
 
 # the fixed partner of join(): default serials, a residue numbered 0, a virtual site, a Triple bond
@@ -116,9 +125,9 @@ PARTNER = _mk([(0, "Z", "JJJ", 0, "SJ", [("X1", "C", None), ("X2", "VS", None)])
 
 # residue names for which a PDB file is a faithful carrier (no renaming, no template bonds on reading)
 PLAIN_RESNAMES = frozenset(["LIG", "MOL", "XXX", "AAA", "BBB", "CCC", "DDD", "RNG", "TAI", "VSR", "AMD", "RA", "RB", "RC",
-                            "JJJ", "WWW", "NA", "HUB", "LW"])
+                            "JJJ", "WWW", "NA", "HUB", "LW", "IOA", "IOB"])
 
-ORDER = ["chains", "resseq", "serials", "virtual", "segments", "sameres", "stdlig", "waterion", "protein", "hub"]
+ORDER = ["chains", "resseq", "serials", "virtual", "segments", "sameres", "stdlig", "waterion", "protein", "hub", "ionchains"]
 
 
 def subset_menu(n):
